@@ -121,6 +121,40 @@ CONVERT = ('std::result::Result::<T, E>::ok', 'std::result::Result::<T, E>::is_o
            'std::result::Result::<T, E>::err')
 
 
+def failure_branch_handled(fn, flag, flag_true_is_ok):
+    """`flag` is the bool made from a transport Result (is_ok / is_err). True if, on the branch where the Result was an error, the
+    function builds an `Err` of its own or diverges (panic) before it rejoins the success branch"""
+    for bi, blk in enumerate(fn.blocks):
+        t = blk['t']
+        if t['t'] != 'switch' or t['discr'][0] == 'k' or t['discr'][1] != [flag]:
+            continue
+        fail_val = '0' if flag_true_is_ok else '1'
+        f_succ = None
+        s_succ = None
+        for v, tb in t['targets']:
+            if v == fail_val:
+                f_succ = tb
+            else:
+                s_succ = tb
+        if f_succ is None:
+            f_succ = t['otherwise']
+        if s_succ is None:
+            s_succ = t['otherwise']
+        succ_reach = fn.reachable_from(s_succ)
+        region = [b for b in fn.reachable_from(f_succ) if b not in succ_reach]
+        for b in region:
+            for st in fn.blocks[b]['s']:
+                if st['k'] == 'assign' and st['rv']['r'] == 'agg' and st['rv'].get('k') == 'adt' and st['rv'].get('v') == 'Err':
+                    return True
+            tt = fn.blocks[b]['t']
+            if tt['t'] == 'call' and tt.get('target') is None:
+                return True
+            if tt['t'] in ('unreachable', 'abort'):
+                return True
+        return False
+    return True     # the flag is not branched on directly (stored / passed on): not decided here
+
+
 def value_fate(fn, loc, depth=0):
     """fates of the value held in local `loc` (same vocabulary as result_fate)"""
     fates = set()
@@ -197,6 +231,9 @@ def result_fate(fn, bi):
                     # if that value is looked at by nobody
                     sub = value_fate(fn, tt['dest'][0])
                     if sub == {'discarded'}:
+                        fates.add(cp)
+                    elif sub == {'switch'} and cp.endswith(('::is_ok', '::is_err')) and not failure_branch_handled(fn, tt['dest'][0], cp.endswith('::is_ok')):
+                        # `if r.is_ok() { .. }` with nothing on the other side: the failure is looked at and dropped
                         fates.add(cp)
                     else:
                         fates |= sub
